@@ -47,6 +47,15 @@ class EnsembleAdapter:
     def cf(self, rows):                       # spec coordinates -> float array (Angstrom)
         return np.array(rows, dtype=float) * (self.cunit / 1e6)
 
+    def row(self, row):                       # one coordinate row (also of a conformer without atoms) -> (na, 3)
+        return self.cf(row).reshape((len(row), 3))
+
+    def rows(self, X):                        # all coordinate rows -> (n, na, 3)
+        return self.cf(X).reshape((len(X), len(X[0]) if len(X) else 0, 3))
+
+    def qrows(self, X):                       # all charge rows -> (n, na)
+        return self.qf(X).reshape((len(X), len(X[0]) if len(X) else 0))
+
     @staticmethod
     def qf(rows):                             # spec charges / weights -> floats
         return np.array(rows, dtype=float) / 1e3
@@ -80,10 +89,11 @@ class EnsembleAdapter:
         e.weights = self.qf(o["W"])
         return e
 
-    def _fill(self, e, act):
-        if len(act["C"]):
-            e.coords = self.cf(act["C"])
-            e.atomic_charges = self.qf(act["Q"])
+    def _fill(self, e, act, na):
+        n = len(act["C"])
+        if n:
+            e.coords = self.cf(act["C"]).reshape((n, na, 3))
+            e.atomic_charges = self.qf(act["Q"]).reshape((n, na))
         return e
 
     def view(self, i, fresh=False):
@@ -150,17 +160,22 @@ class EnsembleAdapter:
             self.src = None
         if a == "newatoms":
             self._drop()
-            k, n = int(act["k"]), len(act["C"])
-            self.e = self._fill(self.CE() if (k == 0 and n == 0) else self.CE([ELEMENTS[j % len(ELEMENTS)] for j in range(k)], n_conformers=n), act)
+            k, a, n = int(act["k"]), int(act["a"]), len(act["C"])
+            if act["form"] == "none":          # ConformerEnsemble(n_conformers=n, n_atoms=a); the bare call when both are 0
+                e0 = self.CE() if (a == 0 and n == 0 and self.rnd.random() < 0.5) else self.CE(n_conformers=n, n_atoms=a)
+                self.e = self._fill(e0, act, a)
+            else:                              # ConformerEnsemble([k elements], n_conformers=n, n_atoms=a)
+                self.e = self._fill(self.CE([ELEMENTS[j % len(ELEMENTS)] for j in range(k)], n_conformers=n, n_atoms=a), act, k)
         elif a == "newmol":
             self._drop()
-            self.e = self._fill(self.CE(self.mol(act["m"]), n_conformers=int(act["n"])), act)
+            self.e = self._fill(self.CE(self.mol(act["m"]), n_conformers=int(act["n"]), n_atoms=int(act.get("a", 0))), act,
+                                int(act["m"]["na"]))
         elif a == "newlist":
             self._drop()
-            self.e = self.CE([self.mol(m) for m in act["ms"]])
+            self.e = self.CE([self.mol(m) for m in act["ms"]], n_conformers=int(act.get("n", 0)))
         elif a == "newcopy":
             self._drop()
-            self.src, self.e = e, self.CE(e)
+            self.src, self.e = e, self.CE(e, n_conformers=int(act.get("n", 0)))
         elif a == "append":
             self.its = {}                 # running iterations are abandoned; every conformer already held is KEPT
             e.append(self.mol(act["m"]))
@@ -185,7 +200,7 @@ class EnsembleAdapter:
         elif a == "trstack":
             e.translate(self.cf(act["vs"]))
         elif a == "swc":
-            self.src[int(act["i"]) - 1].coords = self.cf(act["row"])
+            self.src[int(act["i"]) - 1].coords = self.row(act["row"])
         elif a == "swq":
             self.src[int(act["i"]) - 1].atomic_charges = self.qf(act["row"])
         elif a == "ssw":
@@ -195,7 +210,7 @@ class EnsembleAdapter:
         elif a == "str":
             self.src.translate(self.cf(act["v"]))
         elif a == "vwc":
-            self.view(act["i"], self.rnd.random() < 0.3).coords = self.cf(act["row"])
+            self.view(act["i"], self.rnd.random() < 0.3).coords = self.row(act["row"])
         elif a == "vwq":
             self.view(act["i"], self.rnd.random() < 0.3).atomic_charges = self.qf(act["row"])
         elif a == "vsa":
@@ -203,9 +218,9 @@ class EnsembleAdapter:
         elif a == "vtr":
             self.view(act["i"], self.rnd.random() < 0.3).translate(self.cf(act["v"]))
         elif a == "asc":
-            e.coords = self.cf(act["X"])
+            e.coords = self.rows(act["X"])
         elif a == "asq":
-            e.atomic_charges = self.qf(act["X"])
+            e.atomic_charges = self.qrows(act["X"])
         elif a == "asw":
             e.weights = self.qf(act["X"])
         elif a == "setw":
@@ -223,7 +238,7 @@ class EnsembleAdapter:
             self.its[act["it"]] = iter(())
             return {"out": "ok", "val": [self._rowval(c) for c in kept]}
         elif a == "hwc":
-            self.held[act["it"]][int(act["j"]) - 1].coords = self.cf(act["row"])
+            self.held[act["it"]][int(act["j"]) - 1].coords = self.row(act["row"])
         elif a == "hwq":
             self.held[act["it"]][int(act["j"]) - 1].atomic_charges = self.qf(act["row"])
         elif a == "dump":
@@ -337,22 +352,27 @@ class History:
 
     def construct(self):
         r = self.r
-        kind = r.choice(["newlist", "newlist", "newmol", "newatoms", "newatoms0"] if self.base is None else ["newlist"])
+        kind = r.choice(["newlist", "newlist", "newmol", "newatoms", "newatoms", "boundary"] if self.base is None else ["newlist"])
         if kind == "newlist":
             m0 = self.rmol()
             ms = [m0] + [dict(self.rmol(m0["na"]), nb=m0["nb"]) for _ in range(r.randint(0, self.max_conf - 1))]
-            self.do({"act": "newlist", "ms": ms})
+            self.do({"act": "newlist", "ms": ms, "n": r.choice([0, 0, 1, 5])})
         elif kind == "newmol":
             m, n = self.rmol(), r.choice([0, 1, 2, 3])
             k = n or 1
             rows = [self.rmol(m["na"]) for _ in range(k)]
-            self.do({"act": "newmol", "m": m, "n": n, "C": [x["g"] for x in rows], "Q": [x["q"] for x in rows]})
+            self.do({"act": "newmol", "m": m, "n": n, "a": r.choice([0, 0, 1, 7]), "C": [x["g"] for x in rows], "Q": [x["q"] for x in rows]})
         elif kind == "newatoms":
             na, n = r.randint(1, self.max_atoms), r.randint(0, 3)
             rows = [self.rmol(na) for _ in range(n)]
-            self.do({"act": "newatoms", "k": na, "C": [x["g"] for x in rows], "Q": [x["q"] for x in rows]})
-        else:
-            self.do({"act": "newatoms", "k": 0, "C": [], "Q": []})
+            form = r.choice(["none", "list"])
+            self.do({"act": "newatoms", "form": form, "k": 0 if form == "none" else na, "a": na if form == "none" else r.choice([0, 1, 9]),
+                     "C": [x["g"] for x in rows], "Q": [x["q"] for x in rows]})
+        else:                               # boundary values: no atoms, with or without conformers
+            n = r.choice([0, 0, 1, 2, 3])
+            form = r.choice(["none", "list"])
+            self.do({"act": "newatoms", "form": form, "k": 0, "a": 0 if form == "none" else r.choice([0, 2]),
+                     "C": [[] for _ in range(n)], "Q": [[] for _ in range(n)]})
 
     def step(self):
         r, e = self.r, self.ad.e
@@ -364,7 +384,10 @@ class History:
         if n:
             ops += ["vwc", "vwq", "vsa", "vtr", "setw", "cdump", "cser"] * 2 + ["asc", "asq", "asw"]
         op = r.choice(ops)
-        m_same = lambda: dict(self.rmol(na if na else None), **({} if not na else {"nb": int(e.n_bonds)}))
+        def m_same():
+            if na == 0 and r.random() < 0.4:                                   # a molecule without atoms
+                return {"na": 0, "nb": 0, "g": [], "q": []}
+            return dict(self.rmol(na if na else None), **({} if not na else {"nb": int(e.n_bonds)}))
         if op == "append" and can_grow:
             m = m_same() if r.random() < 0.9 or na == 0 else self.rmol(na + 1)
             self.do({"act": "append", "m": m})
@@ -381,7 +404,7 @@ class History:
             post = self.ad.observe()
             self.do({"act": "extens", "how": "self", "o": {"na": post["na"], "nb": post["nb"], "C": post["C"], "Q": post["Q"], "W": post["W"]}})
         elif op == "newcopy":
-            self.do({"act": "newcopy"})
+            self.do({"act": "newcopy", "n": r.choice([0, 0, 1, n, 6])})
         elif op == "dump":
             self.do({"act": "dump", "fmt": r.choice(["xyz", "mol2"])})
         elif op == "ser":
